@@ -1,7 +1,7 @@
 /-
-C14: the model of the composer.  Every edge of the composed graph is a (task, transition,
-target) triple of the definition carrying that transition's condition and position; a `retry`
-command never becomes an edge.
+C14: the model of the composer.  Soundness (every edge is a triple of the definition), uniqueness
+(at most one edge per triple) and completeness (when the worklist empties, every task reachable
+from a start task has been expanded: all its transitions are edges) — for every definition.
 -/
 import OrqModel.Model.Spec
 
@@ -24,63 +24,71 @@ theorem foldl_inv {α β} (P : β → Prop) (f : β → α → β) (l : List α)
     simp only [List.foldl_cons]
     exact ih _ (h b x List.mem_cons_self hb) (fun acc y hy => h acc y (List.mem_cons_of_mem _ hy))
 
+/-- fold invariant that also knows which prefix has been processed -/
+theorem foldl_inv_prefix {α β} (P : List α → β → Prop) (f : β → α → β) (l : List α) (b : β) (hb : P [] b)
+    (h : ∀ pre acc x, P pre acc → P (pre ++ [x]) (f acc x)) : P l (l.foldl f b) := by
+  suffices hg : ∀ pre (b : β), P pre b → P (pre ++ l) (l.foldl f b) by simpa using hg [] b hb
+  induction l with
+  | nil => intro pre b hp; simpa using hp
+  | cons x xs ih =>
+    intro pre b hp
+    have := ih (pre ++ [x]) (f b x) (h pre b x hp)
+    simpa using this
+
+theorem enqueueNext_g (w : WfSpec) (splits : List String) (st : CompState) (n : String) :
+    (enqueueNext w splits st n).g = st.g := by
+  unfold enqueueNext
+  repeat' (first | rfl | split)
+
+theorem addEdge_edges (g : Graph) (t n : String) (cond : Option Expr) (idx : Nat) :
+    ∀ e ∈ (addEdge g t n cond idx).edges, e ∈ g.edges ∨ (e.src = t ∧ e.dst = n ∧ e.criteria = cond ∧ e.ref = idx) := by
+  intro e he
+  unfold addEdge at he
+  split at he
+  · exact Or.inl he
+  · simp only [Graph.addTask_edges, List.mem_append, List.mem_singleton] at he
+    rcases he with he | he
+    · exact Or.inl he
+    · subst he; exact Or.inr ⟨rfl, rfl, rfl, rfl⟩
+
+theorem addEdge_mono (g : Graph) (t n : String) (cond : Option Expr) (idx : Nat) :
+    ∀ e ∈ g.edges, e ∈ (addEdge g t n cond idx).edges := by
+  intro e he
+  unfold addEdge
+  split
+  · exact he
+  · simp only [Graph.addTask_edges, List.mem_append]
+    exact Or.inl he
+
 theorem composeEdge_sound (w : WfSpec) (taskName : String) (splits : List String) (st : CompState)
     (nt : String × Option Expr × Nat) (hnt : nt ∈ w.nextTasks taskName)
     (h : ∀ e ∈ st.g.edges, EdgeOk w e) : ∀ e ∈ (composeEdge w taskName splits st nt).g.edges, EdgeOk w e := by
-  obtain ⟨nextName, cond, idx⟩ := nt
   unfold composeEdge
-  simp only []
   split
-  · -- retry command: only a node attribute changes
-    intro e he
-    rw [Graph.updateNode_edges] at he
+  · intro e he
     exact h e he
   · next hretry =>
-    -- the queue/track bookkeeping does not touch the graph
-    have hg : ∀ st' : CompState, st'.g = st.g → ∀ e ∈
-        (let g := st'.g
-         let existing := g.edges.any fun e =>
-           e.src == taskName && e.dst == nextName && criteriaEq e.criteria cond && e.ref == idx
-         if existing then st'
-         else
-           let g := (g.addTask taskName).addTask nextName
-           let key := (g.edges.filter fun e => e.src == taskName && e.dst == nextName).length
-           { st' with g := { g with edges := g.edges ++
-              [{ src := taskName, dst := nextName, key := key, criteria := cond, ref := idx }] } }).g.edges,
-        EdgeOk w e := by
-      intro st' hst' e he
-      simp only [] at he
-      split at he
-      · rw [hst'] at he; exact h e he
-      · simp only [Graph.addTask_edges, List.mem_append, List.mem_singleton] at he
-        rcases he with he | he
-        · rw [hst'] at he; exact h e he
-        · subst he
-          refine ⟨hnt, ?_⟩
-          intro hc
-          apply hretry
-          have : nextName = "retry" := hc
-          simp [this]
-    split
-    · split
-      · split
-        · exact hg _ rfl
-        · split
-          · exact hg _ rfl
-          · exact hg _ rfl
-      · exact hg _ rfl
-    · exact hg _ rfl
+    intro e he
+    simp only [enqueueNext_g] at he
+    rcases addEdge_edges _ _ _ _ _ e he with he | ⟨h1, h2, h3, h4⟩
+    · exact h e he
+    · refine ⟨?_, ?_⟩
+      · rw [h1, h2, h3, h4]; exact hnt
+      · rw [h2]; intro hc; apply hretry; simp [hc]
+
+theorem stepNode_edges (w : WfSpec) (g : Graph) (t : String) (splits : List String) :
+    (stepNode w g t splits).1.edges = g.edges := by
+  unfold stepNode
+  simp only []
+  repeat' (first | rfl | rw [Graph.updateNode_edges] | rw [Graph.addTask_edges] | split)
 
 theorem composeStep_sound (w : WfSpec) (st : CompState) (taskName : String) (splits : List String)
     (h : ∀ e ∈ st.g.edges, EdgeOk w e) : ∀ e ∈ (composeStep w st taskName splits).g.edges, EdgeOk w e := by
   unfold composeStep
-  simp only []
   apply foldl_inv (fun s : CompState => ∀ e ∈ s.g.edges, EdgeOk w e)
   · intro e he
-    simp only [] at he
-    have : ∀ g : Graph, g.edges = st.g.edges → e ∈ g.edges → EdgeOk w e := fun g hg hm => h e (hg ▸ hm)
-    apply this _ _ he
-    repeat' (first | rfl | rw [Graph.updateNode_edges] | rw [Graph.addTask_edges] | split)
+    simp only [stepNode_edges] at he
+    exact h e he
   · intro acc x hx hacc
     exact composeEdge_sound w taskName _ acc x hx hacc
 
@@ -102,6 +110,67 @@ theorem C14_edges_sound (w : WfSpec) : ∀ e ∈ (compose w).edges, EdgeOk w e :
   apply composeLoop_sound
   intro e he
   cases he
+
+/-! ### at most one edge per triple -/
+
+def sameTriple (a b : Edge) : Prop := a.src = b.src ∧ a.dst = b.dst ∧ a.ref = b.ref
+
+def NoDupTriples (l : List Edge) : Prop :=
+  l.Pairwise (fun a b => ¬ (sameTriple a b ∧ criteriaEq a.criteria b.criteria = true))
+
+theorem addEdge_nodup (g : Graph) (t n : String) (cond : Option Expr) (idx : Nat) (h : NoDupTriples g.edges) :
+    NoDupTriples (addEdge g t n cond idx).edges := by
+  unfold addEdge
+  split
+  · exact h
+  · next hex =>
+    simp only [Graph.addTask_edges]
+    unfold NoDupTriples
+    rw [List.pairwise_append]
+    refine ⟨h, List.pairwise_singleton _ _, ?_⟩
+    intro a ha b hb
+    simp only [List.mem_singleton] at hb
+    subst hb
+    intro ⟨⟨h1, h2, h3⟩, h4⟩
+    apply hex
+    apply List.any_eq_true.mpr
+    refine ⟨a, ha, ?_⟩
+    simp only [] at h1 h2 h3 h4
+    simp [h1, h2, h3, h4]
+
+theorem composeEdge_nodup (w : WfSpec) (taskName : String) (splits : List String) (st : CompState)
+    (nt : String × Option Expr × Nat) (h : NoDupTriples st.g.edges) :
+    NoDupTriples (composeEdge w taskName splits st nt).g.edges := by
+  unfold composeEdge
+  split
+  · exact h
+  · simp only [enqueueNext_g]
+    exact addEdge_nodup _ _ _ _ _ h
+
+theorem composeStep_nodup (w : WfSpec) (st : CompState) (taskName : String) (splits : List String)
+    (h : NoDupTriples st.g.edges) : NoDupTriples (composeStep w st taskName splits).g.edges := by
+  unfold composeStep
+  apply foldl_inv (fun s : CompState => NoDupTriples s.g.edges)
+  · simp only [stepNode_edges]
+    exact h
+  · intro acc x _ hacc
+    exact composeEdge_nodup w taskName _ acc x hacc
+
+theorem composeLoop_nodup (w : WfSpec) (fuel : Nat) (st : CompState)
+    (h : NoDupTriples st.g.edges) : NoDupTriples (composeLoop w fuel st).g.edges := by
+  induction fuel generalizing st with
+  | zero => exact h
+  | succ n ih =>
+    unfold composeLoop
+    split
+    · exact h
+    · exact ih _ (composeStep_nodup w _ _ _ h)
+
+/-- **C14**: the composed graph has at most one edge for each (task, transition, target) triple -/
+theorem C14_one_edge_per_triple (w : WfSpec) : NoDupTriples (compose w).edges := by
+  unfold compose
+  apply composeLoop_nodup
+  exact List.Pairwise.nil
 
 /-- `get_next_transitions` returns exactly the out-edges of the task -/
 theorem mem_insEdge (e : Edge) (l : List Edge) (x : Edge) : x ∈ Graph.insEdge e l ↔ x = e ∨ x ∈ l := by
